@@ -561,7 +561,7 @@ pub fn gen_seq(rng: &mut Rng, max_len: usize) -> Case {
     let mut forced: Vec<Op> = Vec::new();
     if stress {
         let send_side = rng.chance(2, 3);
-        let k = rng.range(2, 5) as usize;
+        let k = rng.range(2, 10) as usize;
         if send_side {
             // fill the buffer first so that the futures have to wait
             if let Cap::Bounded(n) = cap {
@@ -648,8 +648,8 @@ pub fn gen_seq(rng: &mut Rng, max_len: usize) -> Case {
             4 => {
                 // explicit futures
                 match rng.below(5) {
-                    0 if !ls.is_empty() && futs.len() < 8 => Some(Op::FutSend { h: *rng.pick(&ls), id: next_id }),
-                    1 if !lr.is_empty() && futs.len() < 8 => Some(Op::FutRecv { h: *rng.pick(&lr) }),
+                    0 if !ls.is_empty() && futs.len() < 12 => Some(Op::FutSend { h: *rng.pick(&ls), id: next_id }),
+                    1 if !lr.is_empty() && futs.len() < 12 => Some(Op::FutRecv { h: *rng.pick(&lr) }),
                     2 | 3 if !futs.is_empty() => Some(Op::FutPoll { f: rng.below(futs.len() as u64) as u8, new_waker: rng.chance(1, 3) }),
                     _ if !futs.is_empty() => Some(Op::FutDrop { f: rng.below(futs.len() as u64) as u8 }),
                     _ => None,
